@@ -346,6 +346,10 @@ def run(case):
             if okw and len(res.df):
                 out.label("points:output_file")
                 check_output_file(out, "cleaned.em", res.df, "points")
+            if not case["inplace"]:
+                # two live lists: the returned list is edited in place; the list it was filtered from must not follow
+                _faults.scribble(res)
+                out.check(m.df.equals(before), "points:editing_the_returned_list_changed_the_source_list", "")
         remx = {i for i in range(n) for q in pts if q[0] == tomo[i] and math.dist(xyz[i], q[1:]) <= r}
         out.nontrivial = 0 < len(keep) < n and remx != rem
         if any(q[0] > len(dims) for q in pts):
@@ -407,7 +411,18 @@ def run(case):
             if okw and len(res.df):
                 out.label("mask:output_file")
                 check_output_file(out, "cleaned.em", res.df, "mask")
+            if not case["inplace"]:
+                # two live lists: the returned list is edited in place; the list it was filtered from must not follow
+                _faults.scribble(res)
+                out.check(m.df.equals(before), "mask:editing_the_returned_list_changed_the_source_list", "")
         out.check(all(np.array_equal(x, y) for x, y in zip(masks, keeps)), "mask:mask_array_modified", "")
         keepx = []
         out.nontrivial = 0 < len(keep) < n and outside_any
     return out
+
+
+# rejected calls that run before every case (vlib/faults.py): nothing they leave behind - module state, library options,
+# stray files - may make the valid calls of the case violate the statement
+from vlib import faults as _faults  # noqa: E402
+
+fault_calls = _faults.for_property(ID)
